@@ -3,6 +3,7 @@ import Vanguard.Spec.Progress
 import Vanguard.Props.C11
 import Vanguard.Lemmas.Frame
 import Vanguard.Lemmas.ReadReach
+import Vanguard.Lemmas.ReframeConserve
 /-!
   # C16 — streaming RPCs make progress message by message
 
@@ -43,9 +44,14 @@ import Vanguard.Lemmas.ReadReach
     function (`Lemmas/Frame.lean`) and the closure of what the request readers can do to the request
     state (`Lemmas/ReadReach.lean`).
 
-  NOT proved (partial): the request direction for whole runs - "delivering message k consumes at
-  most k client messages" as an invariant of `runScript` (per `Read` call it is `trRead_no_lookahead`,
-  `erRead_envelope_no_pull`, `limited_never_exceeds`).  For whole runs it is the executable predicate
+  * **whole runs, request direction, re-framing path** (`reframing_reader_holds_back_nothing`, from
+    `erRead_conserves` in `Lemmas/ReframeConserve.lean`): after any sequence of successful reads of any
+    sizes the bytes handed to the handler plus at most five pending envelope bytes plus what is left of
+    the client's body add up to the body - the reader takes nothing of a later message early.
+
+  NOT proved (partial): the request direction for whole runs on the re-encoding path - "delivering
+  message k consumes at most k client messages" as an invariant of `runScript` (per `Read` call it is
+  `trRead_no_lookahead`; by construction a whole message is read only when the previous one is used up).  For whole runs it is the executable predicate
   `Spec.reqStepOk` (and `Spec.respStepOk` for the response direction, now also a theorem of the model),
   evaluated on the progress logs of the implementation for every scenario (and the model's logs are
   compared with the implementation's, flush offsets included), plus a lock-step client in the harness
@@ -971,6 +977,21 @@ theorem serve_handler_makes_progress (w : World) (sc : Scenario) (o : Op) (st : 
       | _ => st'.sink.flushedN.getD 0 = st'.sink.items.length := by
   have hf := transcodePre_fresh w o (o.plan w) _ st first hpre
   exact nothing_complete_is_held_back w sc.tables (o.plan w) script sc.src.left st skip rd hf.1 (by rw [hf.2]; exact ⟨rfl, rfl⟩)
+
+/-! ### whole runs, request direction, re-framing path -/
+
+/-- **The re-framing reader holds back nothing but (part of) one envelope**, whatever the handler's read
+    sizes and however the client's body arrives: after any sequence of successful reads, the bytes given
+    to the handler plus the (at most five) envelope bytes prepared for the backend but not yet handed
+    out plus what is left of the client's body add up to what there was at the start.  Since the
+    re-framed stream has one envelope per client envelope and the payloads unchanged, this says that
+    no byte of message `k+1` is taken from the client before message `k` has been handed to the backend
+    completely - beyond the five bytes of its envelope. -/
+theorem reframing_reader_holds_back_nothing (w : World) (ce se : Enveloper) (st st' : St) (r r' : ER) (ns : List Nat) (o : Bytes)
+    (hce : st.op.clientEnveloper = some ce) (hse : st.op.serverEnveloper = some se) (hwf : r.WF) (herr : r.err = none)
+    (h : EOkReads w st r ns o st' r') :
+    o.length + r'.pending.length + st'.src.data.length = r.pending.length + st.src.data.length ∧ r'.pending.length ≤ 5 :=
+  h.conserves ce se hce hse hwf herr
 
 /-! ### the specification predicates are not vacuous -/
 
